@@ -98,14 +98,6 @@ func runC18(t *testing.T, tp *simrt.Tape, keepTrace bool) hx.Result {
 					break outer
 				}
 				got := c.files()
-				if hasBranchesRepos(c.Q) {
-					// The sharded searcher may rewrite (branchesrepos B:ids) to (branch B) for a
-					// shard all of whose repositories are listed; a branch atom narrows the
-					// *reported* branch list of a file to B while branchesrepos reports all of
-					// the file's branches. Files and matches are what C18 promises, so the
-					// branch lists are not compared for these queries.
-					got, want = stripBranches(got), stripBranches(want)
-				}
 				if d := diffSets(normFiles(got, false), normFiles(want, false)); d != "" {
 					viol = &hx.Violation{Sig: "files-differ-from-per-shard-union|" + c.Kind, Detail: fmt.Sprintf("client%d call %d %s: %s", ci, k, c, d)}
 					break outer
